@@ -61,8 +61,12 @@ def apply_variant(base, v):
             t["ext_interfaces"] = []
         if t["name"] == "Pet" and not v["petCat"]:
             t["members"] = [m for m in t["members"] if m != "Cat"]
-        if t["name"] == "Color" and v["extraEnum"]:
-            t["values"] = t["values"] + ["extra_VALUE"]
+        if t["name"] == "Color":
+            # enum values can be deprecated too (with and without a reason); both front-ends must keep them
+            t["deprecated_values"] = {"GREEN": {"reason": "use RED"}, "blue": {"reason": None}}
+            if v["extraEnum"]:
+                t["values"] = t["values"] + ["extra_VALUE"]
+                t["deprecated_values"]["extra_VALUE"] = {"reason": None}
     s["types"] += [
         {"kind": "INPUT_OBJECT", "name": "Filter", "oneOf": False, "inputFields": [
             {"name": "color", "type": tr("Color")}, {"name": "minAge", "type": tr("Int"), "default": "3"},
